@@ -633,6 +633,7 @@ func c12(r *Report) {
 			r.Decide("path", "(*M/fifo.Group)."+side.mod+": without aggregation the first error stops the group and is returned", okStop, "return err on !aggregateErrors, no further child", "a failing child does not stop a non-aggregating group (or its error is not the one returned)", mod.Pos())
 			r.Decide("path", "(*M/fifo.Group)."+side.mod+": with aggregation every error is added and the remaining children still run", okAgg, "merr.Add(err) then continue", "an aggregating group drops an error or stops early", mod.Pos())
 		}
+		multiErrorAddAlwaysAppends(r)
 	})
 
 	r.Guard("C12.R7", "the priority group: request and response sides insert with the same comparison and both stop at the first error", func() {
